@@ -54,6 +54,8 @@ func execNetworkSimplex(g *graph.DGraph, params graph.Params) {
 		vbalance(g)
 	case 2:
 		p.hbalance(g)
+		// horizontal balancing shifts whole subtrees and may move nodes above layer 0
+		normalize(g)
 	}
 }
 
